@@ -55,6 +55,15 @@ def jobs(tier):
     J.append(A("DVectorMean", loops=["DVectorMean"], clause="frame: only *mean"))
     J.append(A("DVectorSDEV", loops=["DVectorSDEV", "DVectorMean"], clause="frame: only *sdev"))
     J += matrix_jobs(tier)
+    for n0 in ((0, 1, 3) if tier == "quick" else (0, 1, 2, 3, 4, 5)):
+        for napp in ((1, 3) if tier == "quick" else (1, 2, 3, 4)):
+            for ln in ((0, 2) if tier == "quick" else (0, 1, 2, 3)):
+                d = {"VC_N0": n0, "VC_NAPP": napp, "VC_LEN": ln}
+                tag = "n0=%d,napp=%d,len=%d" % (n0, napp, ln)
+                J.append(Job("DVectorList_history@" + tag, "C14/list.c", entry="h_DVectorList_history", srcs=["list.c", "vector.c", "memwrapper.c", "numeric.c"],
+                             kind="bounded", defines=d, unwind=n0 + napp + ln + 3, functions=["initDVectorList", "NewDVectorList", "DVectorListAppend", "DelDVectorList"],
+                             bound="concrete history %s; contents symbolic" % tag,
+                             clause="dvectorlist: append keeps earlier entries, stores deep equal copies, stays inside its slot table; delete frees everything once"))
     return J
 
 
